@@ -73,9 +73,18 @@ impl<'m> Emitter<'m> {
                 return None;
             }
         }
-        // value class without a model
+        // value class: modelled from the type information when it is there, else opaque
         if is_ident(t) && self.m.class(t).map(|c| !c.object).unwrap_or(t.starts_with('Q') && !t.contains('<')) {
-            self.opaque.insert(t.to_owned());
+            let pos_t = self.defined.iter().position(|d| d == t);
+            let pos_scope = self.defined.iter().position(|d| d == scope);
+            match (pos_t, pos_scope) {
+                (Some(a), Some(b)) if a < b => {}
+                (Some(_), _) if t == scope => {}
+                (Some(_), _) => return None,
+                _ => {
+                    self.opaque.insert(t.to_owned());
+                }
+            }
             return Some((t.to_owned(), true));
         }
         None
@@ -104,6 +113,24 @@ fn order_classes(m: &Meta, wanted: &BTreeSet<String>) -> Vec<String> {
         out
     }
     let mut out: Vec<String> = vec![];
+    /// value (non-QObject) classes used by value in properties and signatures come first
+    fn value_classes(m: &Meta, cls: &Class) -> Vec<String> {
+        let mut tys: Vec<&str> = cls.properties.iter().map(|p| p.r#type.as_str()).collect();
+        for ms in [&cls.signals, &cls.slots, &cls.methods] {
+            for me in ms.iter() {
+                tys.push(me.return_type.as_str());
+                tys.extend(me.arguments.iter().map(|a| a.r#type.as_str()));
+            }
+        }
+        let mut out = vec![];
+        for t in tys {
+            let t = t.trim();
+            if is_ident(t) && t != cls.qualified_class_name && m.class(t).map(|c| !c.object).unwrap_or(false) && !out.iter().any(|x| x == t) {
+                out.push(t.to_owned());
+            }
+        }
+        out
+    }
     fn visit(m: &Meta, c: &str, out: &mut Vec<String>, stack: &mut Vec<String>) {
         if out.iter().any(|x| x == c) || stack.iter().any(|x| x == c) {
             return;
@@ -117,6 +144,9 @@ fn order_classes(m: &Meta, wanted: &BTreeSet<String>) -> Vec<String> {
         }
         for o in enum_owners(m, cls) {
             visit(m, &o, out, stack);
+        }
+        for v in value_classes(m, cls) {
+            visit(m, &v, out, stack);
         }
         stack.pop();
         out.push(c.to_owned());
@@ -205,8 +235,35 @@ pub fn emit_api(wanted: &BTreeSet<String>) -> String {
             }
         }
         if !is_qobject {
+            // value class (gadget or hand-described pseudo class): accessors as the type information names them
+            let mut fields = vec![];
+            for p in &cls.properties {
+                if p.read.is_none() && p.write.is_none() {
+                    continue;
+                }
+                let Some((t, by_ref)) = e.ty(cname, &p.r#type) else { continue };
+                let field = format!("{}_", p.name);
+                if let Some(r) = &p.read {
+                    c.push_str(&format!("    {t} {r}() const {{ return {field}; }}\n"));
+                }
+                if let Some(w) = &p.write {
+                    let argt = if by_ref { format!("const {t} &") } else { t.clone() };
+                    c.push_str(&format!("    void {w}({argt} v) {{ {field} = v; }}\n"));
+                }
+                let init = if t.ends_with('*') { " = nullptr".to_owned() } else { "{}".to_owned() };
+                fields.push((t, field, init));
+            }
+            let cmp = if fields.is_empty() { "true".to_owned() } else { fields.iter().map(|(_, f, _)| format!("a.{f} == b.{f}")).collect::<Vec<_>>().join(" && ") };
+            c.push_str(&format!("    friend bool operator==(const {cname} &a, const {cname} &b) {{ return {cmp}; }}\n    friend bool operator!=(const {cname} &a, const {cname} &b) {{ return !(a == b); }}\n"));
+            for (t, f, init) in &fields {
+                c.push_str(&format!("    {t} {f}{init};\n"));
+            }
             c.push_str("};\n");
+            for f in &flags_decls {
+                c.push_str(f);
+            }
             body.push_str(&c);
+            body.push('\n');
             continue;
         }
         // signals
@@ -583,6 +640,8 @@ pub const SANITIZE: &[&str] = &["-fsanitize=bounds,signed-integer-overflow,shift
 /// g++ on one translation unit. `exe` = None means -fsyntax-only.
 pub fn compile(dir: &Path, main_cpp: &str, exe: Option<&str>, compiler: &str) -> CompileResult {
     let mut cmd = std::process::Command::new(compiler);
+    // fixed locale: the wording and quoting of diagnostics must not depend on the environment
+    cmd.env("LC_ALL", "C").env("LANG", "C");
     cmd.current_dir(dir).arg("-std=c++17").arg("-O0").arg("-w").arg("-Werror=return-type").arg("-fmax-errors=20").arg("-I").arg(include_dir()).arg("-I").arg(".");
     match exe {
         None => {
